@@ -121,7 +121,18 @@ fn render(c: &Case, ox: i32, oy: i32) -> Vec<u32> {
         Route::Rect => c.src.with(|s| dt.fill_rect(ox as f32, oy as f32, c.w as f32, c.h as f32, s, &opts)),
         Route::Clear => {
             if let SrcSpec::Solid(col) = &c.src {
+                // clear() is not positioned by the current transform (C11): whatever transform is set, every pixel
+                // inside the clip takes the colour
+                let t = match (c.w * 3 + c.h * 5 + c.mode as i32) % 6 {
+                    0 => Transform::translation(3.0, 0.0),
+                    1 => Transform::scale(0.5, 0.5),
+                    2 => Transform::new(0.0, 1.0, -1.0, 0.0, 2.5, 0.25),
+                    3 => Transform::new(1.0, 2.0, 2.0, 4.0, 0.0, 0.0),
+                    _ => Transform::identity(),
+                };
+                dt.set_transform(&t);
                 dt.clear(solid_of(*col));
+                dt.set_transform(&Transform::identity());
             }
         }
     }
@@ -322,6 +333,8 @@ pub fn check(c: &Case) -> CheckResult {
         Route::Rect => "route:fill_rect",
         Route::Clear => "route:clear",
     });
+    o.class_if(matches!(c.route, Route::Clear) && (c.w * 3 + c.h * 5 + c.mode as i32) % 6 < 4, "clear-under-a-transform");
+    o.class_if(matches!(c.route, Route::Clear) && (c.w * 3 + c.h * 5 + c.mode as i32) % 6 < 4 && c.layer.is_some() && c.layer_clip_popped && matches!(c.clip, ClipSpec::None), "clear-under-a-transform-in-unclipped-layer");
     o.class(match c.clip {
         ClipSpec::None => "clip:none",
         ClipSpec::Rect(..) => "clip:rect",
@@ -461,7 +474,7 @@ pub fn property(ctx: &Ctx) -> Property {
     let c = ctx.clone();
     Property {
         id: "C03",
-        rule: "part px: 1..8 x 1..8 surfaces (one in thirteen 257..300 x 1..2 or 1..2 x 257..300) where every pixel has its own premultiplied previous value; source solid/image/gradient under global alpha; coverage delivered by mask() bytes (each pixel its own byte), by AA or aliased fills of quarter-grid polygons (exact coverage from the 4x4 model), by fill_rect and clear; clip none / rect / quarter-grid path / path then rect; 28 blend modes; in 30% of the cases the whole draw happens inside a layer pushed under an offset clip rectangle (layer origin != (0,0)). Oracle per pixel: exactly previous at weight 0, exactly blend(source, previous) at full weight, otherwise within 3/255 of the real-arithmetic coverage-weighted formula; source colour read from a Src render of the same source (solid sources checked against colour x alpha); same inputs translated by whole pixels must give bit-identical pixels. part sweep: exhaustive mode x coverage byte 0..255 x clip {none, full path, empty path} over a premultiplied boundary lattice of (source, previous) pairs. Non-trivial: case with >=1 partially weighted pixel, or a full-weight pixel under a mode other than SrcOver; distinct by hash of (size, source, alpha, mode, route, clip).",
+        rule: "part px: 1..8 x 1..8 surfaces (one in thirteen 257..300 x 1..2 or 1..2 x 257..300) where every pixel has its own premultiplied previous value; source solid/image/gradient under global alpha; coverage delivered by mask() bytes (each pixel its own byte), by AA or aliased fills of quarter-grid polygons (exact coverage from the 4x4 model), by fill_rect and clear (clear under a translation, scale, quarter turn or singular transform in two thirds of its cases: it is not positioned by the transform); clip none / rect / quarter-grid path / path then rect; 28 blend modes; in 30% of the cases the whole draw happens inside a layer pushed under an offset clip rectangle (layer origin != (0,0)). Oracle per pixel: exactly previous at weight 0, exactly blend(source, previous) at full weight, otherwise within 3/255 of the real-arithmetic coverage-weighted formula; source colour read from a Src render of the same source (solid sources checked against colour x alpha); same inputs translated by whole pixels must give bit-identical pixels. part sweep: exhaustive mode x coverage byte 0..255 x clip {none, full path, empty path} over a premultiplied boundary lattice of (source, previous) pairs. Non-trivial: case with >=1 partially weighted pixel, or a full-weight pixel under a mode other than SrcOver; distinct by hash of (size, source, alpha, mode, route, clip).",
         assumptions: vec![
             "blend(source, previous) is sw_composite::blend::<Mode>::blend, the formula library the property names",
             "between weight 0 and 1 the rounding scheme is not pinned: +-3/255 per channel",
